@@ -49,6 +49,8 @@ type c20Req struct {
 	NilKv  bool          `json:"nilkv,omitempty"`
 	Script []c20WatchMsg `json:"script,omitempty"`
 	Raw    B             `json:"raw,omitempty"` // protobuf bytes to decode into the request type (fuzz entry)
+	// StorageFault: the engine fails once during this request: "" | iter | get | commit
+	StorageFault string `json:"storage_fault,omitempty"`
 }
 
 type c20Case struct {
@@ -117,7 +119,10 @@ func genC20Req(t *rapid.T) c20Req {
 	r := c20Req{API: api, Kind: rapid.SampledFrom(c20Kinds[api]).Draw(t, "kind")}
 	r.Key, r.End, r.Val = genHostileBytes(t, "key"), genHostileBytes(t, "end"), genHostileBytes(t, "val")
 	r.Rev = genHostileRev(t, "rev")
-	r.Limit = rapid.SampledFrom([]int64{0, 0, 1, 2, -1, math.MaxInt64, math.MinInt64}).Draw(t, "limit")
+	r.Limit = rapid.SampledFrom([]int64{0, 0, 1, 2, 3, -1, math.MaxInt64, math.MaxInt64 - 1, math.MinInt64, 1 << 62, 1 << 50, 1 << 31}).Draw(t, "limit")
+	if DrawBool(t, 12, "storageFault") {
+		r.StorageFault = rapid.SampledFrom([]string{"iter", "iter", "get", "commit"}).Draw(t, "sfault")
+	}
 	r.Flag = rapid.IntRange(0, 40).Draw(t, "flag")
 	r.NilKv = DrawBool(t, 10, "nilkv")
 	if r.Kind == "watch" && api == "etcd" {
@@ -158,6 +163,7 @@ type c20Node struct {
 	canaryN   int
 	follower  bool
 	syncFails bool
+	shim      *Shim
 }
 
 func newC20Node() (*c20Node, error) { return newC20NodeRole(false, "ok", false) }
@@ -168,15 +174,17 @@ func newC20NodeRole(follower bool, sync string, proxy bool) (*c20Node, error) {
 	if err != nil {
 		return nil, err
 	}
-	// production wiring with --enable-storage-metrics: the metrics wrapper around the engine
-	kv := imetrics.NewKvStorage(eng.KV, rec)
+	// production wiring with --enable-storage-metrics: the metrics wrapper around the engine (a shim below it lets
+	// the engine fail once on demand)
+	shim := NewShim(eng.KV, false)
+	kv := imetrics.NewKvStorage(shim, rec)
 	env := &SeqEnv{Eng: eng, KV: kv, M: NewModel(), Ctx: context.Background(), Init: InitRev, LastRev: InitRev}
 	env.B = NewTestBackend(kv, BackendOpts{Etcd: true, CacheSize: 256, Metrics: rec})
 	peers := &ScriptedPeers{Leader: !follower, LeaderID: "self", Proxy: proxy}
 	if follower && sync == "error" {
 		peers.SyncFn = func() error { return fmt.Errorf("get revision from leader failed") }
 	}
-	n := &c20Node{env: env, rec: rec, follower: follower, syncFails: follower && sync == "error"}
+	n := &c20Node{env: env, rec: rec, follower: follower, syncFails: follower && sync == "error", shim: shim}
 	n.etcdSrv = etcd.New(env.B, rec, peers)
 	n.brainSrv = brain.New(env.B, rec, peers)
 	ctx, cancel := context.WithCancel(context.Background())
@@ -413,7 +421,45 @@ func runC20(ci interface{}, st *CaseStats) error {
 	n.rec.Problems()
 	nontrivial := false
 	for ri, r := range c.Reqs {
+		// the engine fails once during this request (a storage error answered with an error is fine; a crash or an
+		// inconsistent metric is not)
+		armed := r.StorageFault
+		if armed == "iter" {
+			// an unlimited scan answers an iterator error by backing off for seconds (1 s + 3 s): keep iterator faults
+			// to point reads, limited ranges and the reads inside writes
+			unlimitedScan := (r.Kind == "range" && len(r.End) > 0 && (r.Limit <= 0 || r.Limit == math.MaxInt64)) ||
+				r.Kind == "count" || r.Kind == "stream" || r.Kind == "partitions" || r.Kind == "watch" || r.Kind == "compact" || r.Kind == "txn-compact"
+			if unlimitedScan {
+				armed = ""
+			}
+		}
+		n.shim.OnIter = func(int) Decision {
+			if armed == "iter" {
+				armed = ""
+				return FailNoApply
+			}
+			return Pass
+		}
+		n.shim.OnGet = func(int, []byte) Decision {
+			if armed == "get" {
+				armed = ""
+				return FailNoApply
+			}
+			return Pass
+		}
+		n.shim.OnCommit = func(*CommitInfo) Decision {
+			if armed == "commit" {
+				armed = ""
+				return FailNoApply
+			}
+			return Pass
+		}
 		rejected, err := n.issue(r)
+		armed = ""
+		n.shim.OnIter, n.shim.OnGet, n.shim.OnCommit = nil, nil, nil
+		if r.StorageFault != "" {
+			st.Label("storage-fault:" + r.StorageFault)
+		}
 		what := fmt.Sprintf("request %d %s:%s key=%q end=%q rev=%d", ri, r.API, r.Kind, trunc(r.Key), trunc(r.End), r.Rev)
 		if err != nil {
 			return fmt.Errorf("%s: %v", what, err)
@@ -495,7 +541,7 @@ func probeC20NonUTF8WatchPrefix() (bool, string) {
 
 var specC20 = &Spec{
 	ID:   "C20",
-	Rule: "case = 3..25 hostile requests through the real etcd and native gRPC handler objects on a leader whose metrics client is the real Prometheus client (process-global registry) and whose engine sits behind the storage-metrics wrapper: keys / range ends / values from {empty, ordinary, non-UTF-8, bytes <= '$', NUL, internal-key look-alikes, 300 B..70 KB, '/', the compaction and election record names, random bytes}, revisions from {0, +-1, min/max int64, 1888 (partition magic), near current, +-2^40, random}, limits incl. negative, missing sub-messages, all 24 unsupported transaction shapes, watch streams scripted with creates (incl. negative = range-stream revisions, arbitrary bounds), cancels of unknown ids and empty messages. After every request a canary (create a fresh key, wait until readable, read back point and range, receive its event on a watch opened before) must pass. Oracle: the handler returns without panic; the metrics recorder saw no panic inside the Prometheus client and no metric name emitted with two different label-name sets; the canary passes; the process stays alive (the driver treats worker death as a violation and attributes it to the case in flight). Non-trivial = at least one hostile request followed by a passing canary; distinct = SHA-1 of the case",
+	Rule: "case = 3..25 hostile requests through the real etcd and native gRPC handler objects on a leader whose metrics client is the real Prometheus client (process-global registry) and whose engine sits behind the storage-metrics wrapper: keys / range ends / values from {empty, ordinary, non-UTF-8, bytes <= '$', NUL, internal-key look-alikes, 300 B..70 KB, '/', the compaction and election record names, random bytes}, revisions from {0, +-1, min/max int64, 1888 (partition magic), near current, +-2^40, random}, limits incl. negative and absurdly large, missing sub-messages, a storage engine that fails once (iterator / get / commit) during 12% of the requests, all 24 unsupported transaction shapes, watch streams scripted with creates (incl. negative = range-stream revisions, arbitrary bounds), cancels of unknown ids and empty messages. After every request a canary (create a fresh key, wait until readable, read back point and range, receive its event on a watch opened before) must pass. Oracle: the handler returns without panic; the metrics recorder saw no panic inside the Prometheus client and no metric name emitted with two different label-name sets; the canary passes; the process stays alive (the driver treats worker death as a violation and attributes it to the case in flight). Non-trivial = at least one hostile request followed by a passing canary; distinct = SHA-1 of the case",
 	Gen:  genC20,
 	New:  func() interface{} { return &c20Case{} },
 	Run:  runC20,
